@@ -5,6 +5,7 @@ import (
 	"bytes"
 	stdjson "encoding/json"
 	"fmt"
+	"os"
 	"regexp"
 	"strings"
 	"testing"
@@ -420,5 +421,103 @@ var wfUnit = ev.Unit[WFCase]{
 func TestProp(t *testing.T)   { ev.RunProp(t, "C15", applyUnit) }
 func TestPropWF(t *testing.T) { ev.RunProp(t, "C15", wfUnit) }
 func TestReplay(t *testing.T) {
-	ev.Replay(t, map[string]ev.Replayer{applyUnit.Name: applyUnit.Replayer(), wfUnit.Name: wfUnit.Replayer()})
+	ev.Replay(t, map[string]ev.Replayer{applyUnit.Name: applyUnit.Replayer(), wfUnit.Name: wfUnit.Replayer(), deepResUnit.Name: deepResUnit.Replayer()})
+}
+
+// ---------- results nested deeper than any accepted input ----------
+
+// DeepResCase: document and patch are each within the codec's nesting limit,
+// the result is not (a deep value added at a deep location; a deep subtree
+// copied into its own deepest point). The result is still one RFC 8259 text.
+type DeepResCase struct {
+	Kind  string `json:"kind"`  // "add-deep-value" or "copy-into-itself"
+	Depth int    `json:"depth"` // of the document (and of the added value)
+	Esc   bool   `json:"escape_html"`
+}
+
+func checkDeepRes(c DeepResCase) ev.Verdict {
+	if c.Depth < 2 || c.Depth > 9000 {
+		return ev.Excluded("depth outside the unit")
+	}
+	doc := gen.Deep(c.Depth, 0) // [[[...1...]]]
+	ptr := strings.Repeat("/0", c.Depth-1)
+	var patch string
+	switch c.Kind {
+	case "add-deep-value-objects":
+		// {"a":{"a":...{"a":1}...}}: every level is an object the library parses on the way down
+		doc = gen.Deep(c.Depth, 1)
+		patch = `[{"op":"add","path":"` + strings.Repeat("/a", c.Depth-1) + `/x","value":` + gen.Deep(c.Depth, 0) + `}]`
+	case "copy-into-itself-objects":
+		doc = gen.Deep(c.Depth, 1)
+		patch = `[{"op":"copy","from":"/a","path":"` + strings.Repeat("/a", c.Depth-1) + `/x"}]`
+	case "add-deep-value":
+		patch = `[{"op":"add","path":"` + ptr + `/1","value":` + gen.Deep(c.Depth, 0) + `}]`
+	case "copy-into-itself":
+		patch = `[{"op":"copy","from":"/0","path":"` + ptr + `/1"}]`
+	default:
+		return ev.Excluded("unknown kind")
+	}
+	d, ops, why := lib.ParseCase(doc, patch)
+	if why != "" {
+		return ev.Excluded(why)
+	}
+	want := ref.Apply(d, ops, ref.Opts{Neg: true})
+	if !want.OK() {
+		return ev.Excluded("not applicable per the reference")
+	}
+	r := lib.Apply(doc, patch, lib.Options{Neg: true, Esc: c.Esc})
+	v := ev.Verdict{Classes: []string{c.Kind, fmt.Sprintf("depth=%d", c.Depth)}, NonTrivial: true}
+	if r.Panic != nil {
+		v.Err = r.Panic
+		return v
+	}
+	if r.DecodeErr != nil || r.Err != nil {
+		v.Err = fmt.Errorf("an applicable patch failed (document and patch nested %d deep, result deeper): %v %v", c.Depth, r.DecodeErr, r.Err)
+		return v
+	}
+	out, err := ref.ParseAnyDepth(r.Out)
+	if err != nil {
+		v.Err = fmt.Errorf("output (%d bytes) is not one well-formed RFC 8259 text: %v; it starts %q", len(r.Out), err, headStr(r.Out, 60))
+		return v
+	}
+	if !ref.Equal(out, want.Doc) {
+		v.Err = fmt.Errorf("output (%d bytes, nested %d deep) does not read back as the intended value (nested %d deep)", len(r.Out), out.Depth(), want.Doc.Depth())
+	}
+	return v
+}
+
+func headStr(b []byte, n int) string {
+	if len(b) > n {
+		return string(b[:n])
+	}
+	return string(b)
+}
+
+var deepResUnit = ev.Unit[DeepResCase]{
+	Name:  "deep-results",
+	Rule:  "enumerated: a document nested d levels with a value nested d levels added at its deepest location, and a deep subtree copied into its own deepest point (d = 200 and 6 000, in the thorough tier also 4 999, 5 001 and 9 000: from 5 001 on the result is nested deeper than the 10 000 levels the codec accepts as input), both EscapeHTML settings, array chains in both tiers and object chains (every level parsed by the library; quadratic, ~15 s each) in the thorough tier; oracle: the patch applies, the output is one RFC 8259 text (reader without nesting limit) denoting the reference result; every case non-trivial",
+	Check: checkDeepRes,
+}
+
+func TestDeepResult(t *testing.T) {
+	ev.HangSeconds = 150 // the object chains take seconds each on an idle machine; this process runs nothing else
+	depths := []int{200, 6000}
+	if os.Getenv("VERIF_TIER") == "thorough" {
+		depths = []int{200, 4999, 5001, 6000, 9000}
+	}
+	var cases []DeepResCase
+	if os.Getenv("VERIF_TIER") == "thorough" {
+		// object chains are quadratic in the depth on the way down (~15 s each at 6 000): thorough tier only
+		for _, k := range []string{"add-deep-value-objects", "copy-into-itself-objects"} {
+			cases = append(cases, DeepResCase{k, 6000, true}, DeepResCase{k, 6000, false})
+		}
+	}
+	for _, d := range depths {
+		for _, k := range []string{"add-deep-value", "copy-into-itself"} {
+			for _, esc := range []bool{true, false} {
+				cases = append(cases, DeepResCase{k, d, esc})
+			}
+		}
+	}
+	ev.RunCases(t, "C15", deepResUnit, cases)
 }
